@@ -126,6 +126,36 @@ impl Payload for Rec {
     }
 }
 
+/// recording payload with a non-empty encoding suffix (header `vNc.purpose.`)
+#[derive(Clone, Debug, PartialEq, Eq)]
+pub struct RecC(pub Vec<u8>);
+
+impl Payload for RecC {
+    const SUFFIX: &'static str = "c";
+    fn encode(self, mut w: impl WriteBytes) -> Result<(), BoxErr> {
+        callback();
+        ENV.with(|e| e.borrow_mut().events.push(Event::PayloadEncode));
+        w.write(&self.0);
+        Ok(())
+    }
+    fn decode(p: &[u8]) -> Result<Self, BoxErr> {
+        callback();
+        ENV.with(|e| e.borrow_mut().events.push(Event::PayloadDecode(p.to_vec())));
+        Ok(RecC(p.to_vec()))
+    }
+}
+
+/// recording validator over `RecC`
+pub struct RecCValidator;
+impl Validate for RecCValidator {
+    type Claims = RecC;
+    fn validate(&self, c: &RecC) -> Result<(), PasetoError> {
+        callback();
+        ENV.with(|e| e.borrow_mut().events.push(Event::Validate(c.0.clone())));
+        Ok(())
+    }
+}
+
 /// recording footer (identity encoding)
 #[derive(Clone, Debug, PartialEq, Eq)]
 pub struct RecFooter(pub Vec<u8>);
